@@ -65,7 +65,10 @@ def gen_cases(tier, seed):
             r = random.Random(cs)
             d = gen.random_graph(r, 2, 12)
             d['labels'] = r.choice(gen.LABEL_SCHEMES)
-            out.append({'kind': 'misc', 'entry': name, 'graph': d, 'seed': cs, 'p': r.choice([0.3, 0.7]), 'tau': r.choice([0.5, 1.5]), 'gamma': r.choice([0.5, 1.0])})
+            c = {'kind': 'misc', 'entry': name, 'graph': d, 'seed': cs, 'p': r.choice([0.3, 0.7, 0.0, 1.0]), 'tau': r.choice([0.5, 1.5, 0.0]), 'gamma': r.choice([0.5, 1.0, 0.0])}
+            if c['tau'] == 0 and c['gamma'] == 0:
+                c['gamma'] = 1.0          # tau = gamma = 0 leaves the transmission probability undefined
+            out.append(c)
     return out
 
 
